@@ -585,15 +585,18 @@ def run(tier):
                 V.unjudged += 1
                 continue
             V.bump("sets_judged")
-            f = judge(sc, r0)
+            verdicts = [judge(sc, res.get(cid, {})) for cid in variants]      # every file order is judged on its own first
+            f = next((dict(v, file_order=cid) if k else v for k, (cid, v) in enumerate(zip(variants, verdicts)) if v), None)
             sig_extra = {}
-            if not f:
-                # every file order is judged on its own first
-                for cid in variants[1:]:
-                    f = judge(sc, res.get(cid, {}))
-                    if f:
-                        f["file_order"] = cid
-                        break
+            if f and f["what"] == "a consistent set of confirmations is rejected":
+                # input/observation features for a known-finding signature (greedy matching in file order): another order of
+                # the same files is accounted for validly, the message is the matcher's own, and at least two benefits of
+                # one security with sold shares have overlapping five-day windows
+                bs_ = [b for b in sc["benefits"] if b["sold"]]
+                ov_ = any(abs((a["date"] - b["date"]).days) <= 5 and a["sym"] == b["sym"] for a, b in itertools.combinations(bs_, 2))
+                other_ok = any(v is None and res.get(cid, {}).get("ok") for cid, v in zip(variants, verdicts))
+                own_msg = ("Found no trades matching the sell-to-cover" in str(f.get("err")) or "Unable to decide between multiple trade combinations" in str(f.get("err")))
+                sig_extra = {"greedy_shape": bool(ov_ and other_ok and own_msg)}
             if not f:
                 for cid in variants[1:]:
                     ro = res.get(cid, {})
